@@ -971,10 +971,16 @@ func (g *rGen) program() {
 			}
 		}
 	}
-	// stickiness: two more calls
+	// stickiness: two more calls — with the application's usual cleanup (Conn.Close) in between now and
+	// then: closing the connection does not change what NextReader reports afterwards
 	for i := 0; i < 2; i++ {
 		if g.firstErr == "" {
 			break
+		}
+		if r.Intn(4) == 0 {
+			err := g.c.Close()
+			g.sc.emit("cc c0", g.line(resStr(err)))
+			g.sc.tag("close-between-failed-reads")
 		}
 		g.opNextReader()
 	}
@@ -1407,7 +1413,21 @@ func runFuzzScenario(seed int64) *scenario {
 	g.rbuf = rbufChoices[r.Intn(len(rbufChoices))]
 	g.build()
 	b := append([]byte(nil), g.stream...)
-	switch r.Intn(7) {
+	switch r.Intn(8) {
+	case 7: // a control-frame header that is wrong in every way at once
+		if len(b) >= 2 {
+			i := 0
+			if len(g.frames) > 0 {
+				i = g.frames[r.Intn(len(g.frames))].start
+			}
+			b0 := byte(0x70 | []int{8, 9, 10}[r.Intn(3)]) // FIN clear, RSV1-3 set, control opcode
+			b1 := byte(126 + r.Intn(2))
+			if !g.srv {
+				b1 |= 0x80 // masked frame to a client / unmasked to a server: wrong for the role
+			}
+			hdr := []byte{b0, b1, 0, 0, 0, 0, 0, 0, 1, 0}
+			b = append(append(append([]byte(nil), b[:i]...), hdr...), b[i+2:]...)
+		}
 	case 0: // pure noise
 		b = make([]byte, r.Intn(300))
 		r.Read(b)
